@@ -553,6 +553,25 @@ func runLenGuard(p *Program, r *Report, a *verifyAnchors, rule string) {
 				}
 				if blockReturnsNonNilError(failing) {
 					r.Discharge(rule, key, posOf(p, sc.call), "dominated by len(hashes) == len(proof.Targets); the failing edge returns an error", true)
+					// sibling agreement: every verifier refuses a claim whose hash and target counts differ, so no
+					// success return may come before the test (an early "nothing to verify" return for zero hashes
+					// accepts a proof that names targets, which the other verifiers reject and Modify then deletes)
+					passing := g.If.Block().Succs[0]
+					if failing == passing {
+						passing = g.If.Block().Succs[1]
+					}
+					k2 := p.FuncName(fn) + "/length-test-before-success"
+					var early *ssa.Return
+					for _, s := range successReturns(fn) {
+						if !edgeDominates(g.If.Block(), passing, s.Block()) && early == nil {
+							early = s
+						}
+					}
+					if early != nil {
+						r.Violate(rule, k2, posOf(p, early), "this verifier returns success before it has compared the number of hashes with the number of targets: a proof that names targets but comes with no hashes is accepted here and refused by the other verifiers, and applying it deletes the targets", "in "+p.FuncName(fn))
+					} else {
+						r.Discharge(rule, k2, posOf(p, g.If), "every success return comes after the comparison of the number of hashes with the number of targets", true)
+					}
 					continue
 				}
 				r.Violate(rule, key, posOf(p, sc.call), "the length test's failing edge does not return an error", "in "+p.FuncName(fn))
